@@ -24,4 +24,7 @@ def run(ctx, rep):
     builtins.rule_no_stale_field_alias(ctx, rep, "C17-R8")
     builtins.rule_index_bound_survives_callback(ctx, rep, "C17-R9")
     builtins.rule_no_stale_local_alias(ctx, rep, "C17-R10")
+    from ..rules import textparse
+
+    textparse.rule_canonical_index_keys(ctx, rep, "C17-R11")
     rep.undecided += ["the method result tables over the argument grid (values, not shape): a runtime differential, outside static analysis"]
